@@ -2601,6 +2601,7 @@ class PrefixWrapper:
         return wrapper
 
     def needs_update(self, hash, **kwds):
+        hash = to_unicode(hash, "ascii", "hash")
         hash = self._unwrap_hash(hash)
         return self.wrapped.needs_update(hash, **kwds)
 
